@@ -290,3 +290,15 @@ Example C34_repo_nonvacuous :
   load (table_ans demo_tbl2) (fun _ => false) [demo_refs] = UnknownObject.
 Proof. vm_compute. repeat split. Qed.
 Print Assumptions C34_repo_nonvacuous.
+
+(* The converse of C34_built_objects_are_keys is false, also in textX: an object created for a rule
+   referenced without an assignment is registered in the position map and then dropped, so the
+   keys are NOT exactly the spans of the objects of the returned model (witness and replay in
+   Proofs/EdPosBuildProofs.v and design/C34.md).  C34 itself is not affected: the key still is the
+   span of the object it maps to. *)
+Theorem C34_keys_exactly_built_refuted :
+  exists g mm input grp auto use_grp t v top',
+    pnode g mm input grp auto use_grp t None = BOk (v, top') /\
+    exists nd s e i, In nd (abs g mm [] t) /\ In (s, e, i) (rule_dict nd) /\ ~ In (IObj s e) (vitems v).
+Proof. exact keys_exactly_built_refuted. Qed.
+Print Assumptions C34_keys_exactly_built_refuted.
